@@ -936,9 +936,12 @@ structure ISAttrs (α σ : Type) where
 
 /-- `ImportanceSamplingEstimator.__call__` on an object: `b = self.proposal.sample([self.mc_samples])`
 takes the first `mc_samples` draws of the stream.  `none`: the modes the model does not cover
-(`self_normalize`, `is_log`), or fewer draws than `mc_samples`. -/
+(`self_normalize`, `is_log`), fewer draws than `mc_samples`, or an object made invalid by the assignment
+`mc_samples = 0` (only the constructor checks `is_posi`; the call then raises ValueError from
+`math.log(0)` - audit F: the total formula would have returned the empty sum 0). -/
 def isCall (a : ISAttrs α σ) (draws : List σ) : Option (Dual α) :=
   if a.selfNormalize || a.isLog then none
+  else if a.mcSamples = 0 then none
   else if draws.length < a.mcSamples then none
   else some (isEstimateN a.mcSamples
     ((draws.take a.mcSamples).map fun b => ⟨a.func b, a.density b, a.proposal b⟩))
@@ -962,9 +965,15 @@ structure DirectAttrs (α σ : Type) where
 def DirectAttrs.sample (a : DirectAttrs α σ) (b : σ) : DirectSample α :=
   ⟨a.func b, a.cv.map (· b), ⟨a.proposal.lv b, (a.proposal.p b).grad / (a.proposal.p b).val⟩⟩
 
-/-- `DirectEstimator.__call__` on an object (`is_log = False`) -/
+/-- `DirectEstimator.__call__` on an object (`is_log = False`).  `none` also for the two invalid
+objects assignments can produce and no constructor check prevents (audit F: the total formulas returned a
+number there): `mc_samples = 0` (the code returns NaN, the mean of an empty tensor) and a control
+variate in force without a `cv_mean` (`fb - cvb + None` raises TypeError; `directFb` would silently
+return `func(b)`). -/
 def directCall (a : DirectAttrs α σ) (draws : List σ) : Option (Dual α) :=
   if a.isLog then none
+  else if a.mcSamples = 0 then none
+  else if a.cv.isSome && a.cvMean.isNone then none
   else if draws.length < a.mcSamples then none
   else some (directEstimate ((draws.take a.mcSamples).map a.sample) a.cvMean)
 
